@@ -280,6 +280,8 @@ class SArr(SArrBase):
             return SArr((r * cc,), lambda t: old(t / cc, t % cc), self.kind)
         raise Unsupported("flatten rank>2")
 
+    ravel = flatten
+
     def squeeze(self):
         keep = [k for k, s in enumerate(self.shape) if dim_const(s) != 1]
         for k, s in enumerate(self.shape):
@@ -1091,6 +1093,14 @@ class SList:
 
     def __len__(self):
         return len(self.arr)
+
+    def __bool__(self):
+        # truth value of a list: not empty
+        n = self.arr.shape[0]
+        c = dim_const(n)
+        if c is not None:
+            return c > 0
+        return bool(SBool(dim_term(n) > 0))
 
     def __getitem__(self, k):
         r = self.arr[k]
